@@ -79,13 +79,24 @@ func VerifC20_Filter() {
 	global := Severity(1 + rt.Choice("global", 6))
 	SetLogLevel(global)
 	inForce := global
-	switch rt.Choice("pkgmode", 3) {
+	// an earlier configuration of the per-package levels is replaced as a whole
+	// by a later one
+	if rt.Bool("earlier-pkg-levels") {
+		earlier := Severity(1 + rt.Choice("earlierlevel", 6))
+		SetPkgLevels(map[string]Severity{"log": earlier})
+		inForce = earlier
+	}
+	switch rt.Choice("pkgmode", 4) {
 	case 1: // per-package levels with an entry for this package
 		lv := Severity(1 + rt.Choice("pkglevel", 6))
 		SetPkgLevels(map[string]Severity{"log": lv})
 		inForce = lv
 	case 2: // per-package levels without an entry for this package
 		SetPkgLevels(map[string]Severity{"other": Severity(1 + rt.Choice("pkglevel", 6))})
+		inForce = global
+	case 3: // per-package levels switched off again
+		UnSetPkgLevels()
+		inForce = global
 	}
 	level := Severity(1 + rt.Choice("level", 6))
 	c20Emit(level, "m")
